@@ -24,7 +24,7 @@ ASSUMPTIONS = ["only truly empty lines are generated as blank lines (whitespace-
 
 def budget(tier):
     if tier == "quick":
-        return {"runs": 3000, "wall": 75, "chunk": 10}
+        return {"runs": 3000, "wall": 120, "chunk": 10}
     return {"runs": 120000, "wall": 1200, "chunk": 10}
 
 
